@@ -38,7 +38,6 @@ ASSUMPTIONS = [
     "Excl: CONFIG_PROTECT/MASK entries are directories (file entries are arguable); COLLISION_IGNORE globs are chosen so that anchoring at the start of the path makes no difference (pkgcore uses an unanchored search: '/x' also ignores '/y/x')",
     "Excl: more than 9999 pending updates, non-regular files, names '.keep*' (built-in ignores)",
     "Excl: when several pending updates are identical to the incoming file any of their numbers may be reused",
-    "uninstall with a non-'/' offset: MergeEngine.uninstall intersects the un-offset recorded paths with the real '/' (engine.py applies the offset to old_cset instead of raw_old_cset), so no file is unmerged there and the unmerge half of the property holds vacuously (classes 'uninstall/offset/unmodified-kept', 'overprotected:*'); replace mode is not affected",
     "all '/'-offset cases of one task share one forked child (fork is very expensive on the host) which wipes its chroot between cases; every engine/trigger/package object is created per case and a single-case replay must reproduce the batch verdict (checked by the runner)",
 ]
 BOUNDS = {
